@@ -5,7 +5,7 @@ HERE = os.path.dirname(os.path.abspath(__file__))
 props = {l["id"]: l for l in (json.loads(x) for x in open(os.path.join(HERE, "properties.jsonl")))}
 
 CHECKS = {
- "C01": ("exploration", "sanitizers (ASan+UBSan, gcc and clang; valgrind sample) + invariant walkers + CPU watchdog + frame bound over hostile-grammar histories and an enumerated SDO state x command sweep",
+ "C01": ("exploration", "sanitizers (ASan+UBSan with gcc and clang, MemorySanitizer with clang incl. an initialised-memory check of every transmitted frame; valgrind sample) + invariant walkers + CPU watchdog + frame bound over hostile-grammar histories and an enumerated SDO state x command sweep",
          "Held on the histories executed (thousands quick, >10^5 thorough) over generated dictionaries, CO_SSDO_N in {1,2}, all NMT states, driver faults; red-zone tools miss intra-object overflows, covered by UBSan bounds and the invariant walkers.",
          "hostile workload + sanitizers + invariant monitors", "3/C01"),
  "C02": ("exploration", "reference SDO client (every conforming choice) against the real server; response-by-response check and whole-dictionary storage comparison after every confirmed download; two interleaved servers",
@@ -22,7 +22,7 @@ CHECKS = {
          "Exhaustive only up to the reported depth / state cap per pool size; delays from a small domain in the exhaustive part.", "lockstep reference-model monitor over enumerated + random operation sequences", "3/C07"),
  "C08": ("exploration", "trap-flag single stepping raises the tick ISR at every instruction of every task-level timer call (deferred to unlock inside critical sections); trace oracles for exactly-once, no-loss, no-run-after-delete, conservation at quiescent points and ISR entries; separated service/process",
          "Interleavings: one or two interrupts per call, at x86-64 instruction granularity of the gcc -O1 build; single core, non-nesting ISR.", "instruction-granular interrupt injection + trace monitors", "3/C08"),
- "C09": ("exploration", "reference NMT FSM + gating table; operation sequences enumerated to a depth bound (quick 3, thorough 4) plus random longer ones; nine service probes after EVERY operation; frames, callbacks, mode and object effects compared",
+ "C09": ("exploration", "reference NMT FSM + gating table; operation sequences enumerated to a depth bound (quick 3, thorough 4) plus random longer ones, scripted application reactions inside the mode change callback x every operation pair; the service probes after EVERY operation; frames, callbacks, mode and object effects compared",
          "Complete for the operation alphabet up to the depth bound; delivery of unclaimed frames in STOPPED/INITIALISING is open.", "lockstep reference-FSM monitor with service probes", "3/C09"),
  "C10": ("exploration", "tick-by-tick comparison of heartbeat emissions with the reference schedule over histories mixing every other timer user, NMT changes, resets and 1017h writes (SDO and API)",
          "Histories sampled; phase after boot-up/reset open, after a write exact.", "reference-schedule monitor", "3/C10"),
@@ -37,11 +37,11 @@ CHECKS = {
  "C15": ("exploration", "reference emergency model compared after every step (frames, count, register, COEmcyGet, history via API and SDO); sequences enumerated to a depth bound on a 4-error table, random tables/histories, wrap-around at every fill level",
          "Complete for the alphabet up to depth 4 (quick) / 5 (thorough) on the fixed table; random beyond.", "lockstep reference-model monitor", "3/C15"),
  "C16": ("exploration", "reference model of SYNC consumption/production: produced frames tick by tick, write verdicts and read-back, synchronous TPDO/RPDO reactions to every received SYNC",
-         "Histories sampled over three timer frequencies and periods up to 2^32-1 us.", "reference-model monitor", "3/C16"),
+         "Histories sampled over six timer frequencies (100 Hz .. 1 MHz) and periods up to 2^32-1 us; stored configuration compared after power cycle and reset.", "reference-model monitor", "3/C16"),
  "C17": ("fault_enumeration", "for every generated request sequence: fault-free run, a power cycle after every request prefix, and every NVM driver call (reads and writes) made short by 1 byte and by the whole block; RAM, NVM, verdicts, node error and default callbacks compared with the model after every step",
          "Exhaustive over restart points and fault positions per generated (layout, sequence); torn writes inside one request are outside the property.", "fault enumeration with lockstep reference model", "3/C17"),
  "C18": ("exploration", "reference CiA 305 FSM; breadth-first over distinct reference states to a depth bound (every abstract request in every distinct state, replayed on the real node) plus random sequences; responses, store arguments, foreign reactions, boot-up id after reset compared",
-         "Complete over the abstract request set per distinct reference state up to the depth bound; interrupted selective/identify sequences are open.", "lockstep reference-FSM monitor", "3/C18"),
+         "Complete over the abstract request set per distinct reference state up to the depth bound; near-miss selective/identify sequences (single and double mutations) enumerated.", "lockstep reference-FSM monitor", "3/C18"),
  "C19": ("exploration", "scripted reference SDO server (conforming and deviating at every step k); per transfer: exactly one callback with code and tick, request frames equal the reference client's, buffer content under ASan, busy refusal, no timer/state left behind, next transfer unaffected",
          "Every size 1..600 per direction (thorough) and every deviation step for short transfers; larger sizes sampled.", "reference-server monitor + timer-occupancy invariant", "3/C19"),
  "C20": ("exploration", "differential execution: node after history + reset versus a fresh executor initialised with the same dictionary values, identical probe sequence, trace equality and timer-occupancy equality",
